@@ -251,17 +251,20 @@ class SymInt:
         return self.__ne__(0)
 
     def concretize(self):
-        """fork on the value (only sensible for small ranges)"""
+        """fork on the value; only for functions of one finite-domain variable
+        (candidate values are enumerated in a fixed order, so replays are deterministic)"""
         eng = E.cur()
         if self.tag:
             eng.tainted_decisions += 1
             eng.path_notes.append(("coord-concretize", self.tag))
-        m = eng.model()
-        while True:
-            v = m.eval(self.e, model_completion=True).as_long()
-            if eng.decide(self.e == v):
+        if self.unary is None:
+            raise E.HarnessError("the code needs the concrete value of a symbolic integer (index/hash/int()): not modelled")
+        key, var, tab = self.unary
+        for v in sorted(set(tab.values())):
+            idxs = frozenset(j for j, w in tab.items() if w == v)
+            if eng.decide_member(key, var, idxs):
                 return v
-            m = eng.model()
+        raise E.HarnessError("SymInt.concretize: no value")
 
     def __index__(self):
         return self.concretize()
